@@ -1,8 +1,10 @@
 """Runtime helpers shared by the harness functions (oracles written without hashing symbolic values)."""
 import sys
 
-if "/repo" not in sys.path:
-    sys.path.insert(0, "/repo")
+import os
+_REPO = os.environ.get("FVSYM_REPO") or "/repo"
+if _REPO not in sys.path:
+    sys.path.insert(0, _REPO)
 
 from fibertree import Fiber, Payload, Tensor, Rank, CoordPayload, Metrics  # noqa: E402
 from fibertree.core.rank_attrs import RankAttrs  # noqa: E402
